@@ -185,5 +185,5 @@ fn run(c: &NameCase, obs: &mut Obs) -> Result<(), Failure> {
 }
 
 pub fn scheme(ctx: &mut Ctx) {
-    ctx.proptest("naming.scheme", ctx.scale(60_000, 1_500_000), strategy(), |c: &NameCase, obs: &mut Obs| run(c, obs));
+    ctx.proptest("naming.scheme", ctx.scale(60_000, 600_000), strategy(), |c: &NameCase, obs: &mut Obs| run(c, obs));
 }
